@@ -17,6 +17,7 @@ def valJson : Val → Json
   | .undef => Json.mkObj [("u", jnat 1)]
   | .bool b => Json.bool b
   | .obj h t => Json.mkObj [("h", js h), ("t", js t)]
+  | .other t => Json.mkObj [("x", js t)]
 
 def field? (j : Json) (k : String) : Option Json := (j.getObjVal? k).toOption
 
@@ -41,7 +42,10 @@ def parseVal (j : Json) : Option Val :=
         | none =>
           match field? j "h", field? j "t" with
           | some h, some t => do pure (.obj (← asStr? h).toList (← asStr? t).toList)
-          | _, _ => match field? j "u" with | some _ => some .undef | none => none
+          | _, _ =>
+            match field? j "x" with
+            | some t => (asStr? t).map fun t => .other t.toList
+            | none => match field? j "u" with | some _ => some .undef | none => none
 
 def parseArg (j : Json) : Option Arg :=
   match j with
